@@ -61,9 +61,9 @@ CONSTANTS Ns,        \* chain lengths of the source
           MaxT,      \* thinning values 1..MaxT
           Geoms,     \* geometry kinds of single sample sets
           JointNs,   \* chain lengths N of joint sample sets (members have N and N + 1 samples)
-          Percents,  \* credibility levels (integers 0..100)
+          PerMilles, \* credibility levels in TENTHS of a percent (integers 0..1000): 5 is the 0.5 % interval, 950 the 95 % one
           NChains,   \* number of additional chains handed to R-hat
-          Dev,       \* "none" | "offbyone" | "boundary" | "dropflag" | "inplace" | "lexorder" | "jointnothin"
+          Dev,       \* "none" | "offbyone" | "boundary" | "dropflag" | "inplace" | "lexorder" | "jointnothin" | "fraction"
                      \*  frame machine: "rhatinsertsself" | "convinplace";  layouts: "castback" | "convkeepstype"
           Layouts,   \* data layouts of the SOURCE array, used (besides the reference layout) with the chain lengths LayNs
           LayNs,     \* chain lengths of the configurations in the layouts of Layouts (every geometry of Geoms; "wide" for
@@ -172,11 +172,31 @@ Pct(sorted, q) ==
         frac == RSub(pos, R(lo))
     IN IF lo + 1 >= n THEN R(sorted[n])
        ELSE RAdd(R(sorted[lo + 1]), RMul(frac, R(sorted[lo + 2] - sorted[lo + 1])))
-CI(sorted, p) == LET lbq == Q(100 - p, 2)
+\* CREDIBILITY LEVEL.  The level p of compute_ci / ci_width / plot_ci_width / plot_ci is a number of PERCENT anywhere in
+\* [0, 100] (0.5 is the half-percent interval, 1 the one-percent interval, 100 the whole range): the bounds are the
+\* percentiles (100 - p) / 2 and 100 - (100 - p) / 2, the SAME rule for every level and for every number type the level is
+\* handed over in.  Levels are exact rationals; the cfg gives them in tenths of a percent (a cfg cannot hold tuples).
+\* Deviation Fraction: a level 0 < p <= 1 is read as a fraction of one (multiplied by 100).
+Level(m)     == Q(m, 10)
+LevelRead(p) == IF Dev = "fraction" /\ RLt(Zero, p) /\ RLe(p, R(1)) THEN RMul(p, R(100)) ELSE p
+Percents     == {Level(m) : m \in PerMilles}
+\* number types in which the level can be handed over with exactly its value: python float / numpy float64 always (tenths
+\* of a percent: to 1 ulp), single precision when the level is a multiple of a half, the integer types when it is an integer
+LevelForms(m) == {"float", "npfloat64"} \cup (IF m % 5 = 0 THEN {"npfloat32"} ELSE {})
+                 \cup (IF m % 10 = 0 THEN {"int", "npint64", "npint32"} ELSE {})
+CI(sorted, p) == LET lbq == RDiv(RSub(R(100), LevelRead(p)), R(2))
                      lo  == Pct(sorted, lbq)
                      hi  == Pct(sorted, RSub(R(100), lbq))
                  IN [pct |-> p, lo |-> lo, hi |-> hi, width |-> RSub(hi, lo)]
-PctSeq == SortSet(Percents)
+PmSeq  == SortSet(PerMilles)
+\* the same bounds in integer arithmetic over the common denominator CID (used to ORDER the intervals of different levels
+\* without cross-multiplying rationals: TLC's integers are 32 bit): level m per mille, n values: the lower percentile sits
+\* at position (1000 - m)(n - 1) / 2000 of the sorted values, the upper one at (1000 + m)(n - 1) / 2000
+CID == 2000
+PctNum(sorted, k) == LET n == Len(sorted)  lo == k \div CID  rem == k % CID
+                     IN IF lo + 1 >= n THEN CID * sorted[n]
+                        ELSE CID * sorted[lo + 1] + rem * (sorted[lo + 2] - sorted[lo + 1])
+CINum(sorted, m) == [lo |-> PctNum(sorted, (1000 - m) * (Len(sorted) - 1)), hi |-> PctNum(sorted, (1000 + m) * (Len(sorted) - 1))]
 
 \* additional chains for R-hat: chain j (1..NChains) holds at coordinate pos, column id
 ChainVal(j, v, id) == v + j * (1 + ((id * id + j) % 5))
@@ -192,8 +212,9 @@ StatsL(lay, o, pos) ==
         d  == Den(o)
         U(q) == Out(lay, RDiv(q, R(d)))
     IN [pos |-> pos, vals |-> xs, den |-> d, mean |-> U(Mean(xs)), var |-> Out(lay, RDiv(Var(xs), R(d * d))), med |-> U(Pct(s, R(50))),
-        ci |-> F([q \in 1..Len(PctSeq) |-> LET I == CI(s, PctSeq[q])
-                                            IN [pct |-> I.pct, lo |-> U(I.lo), hi |-> U(I.hi), width |-> U(I.width)]]),
+        ci |-> F([q \in 1..Len(PmSeq) |-> LET I == CI(s, Level(PmSeq[q]))
+                                           IN [pm |-> PmSeq[q], pct |-> I.pct, forms |-> LevelForms(PmSeq[q]),
+                                               lo |-> U(I.lo), hi |-> U(I.hi), width |-> U(I.width)]]),
         chains |-> F([j \in 1..NChains |-> [k \in 1..Len(o.cols) |-> ChainVal(j, xs[k], o.cols[k])]])]
 
 AllStatsL(lay, o) == LET C == Coords(o) IN F([q \in 1..Len(C) |-> StatsL(lay, o, C[q])])
@@ -370,6 +391,31 @@ LoMedHiAt(st) ==
     /\ RLe(Zero, st.var)
     /\ \A q \in 1..Len(st.ci) : /\ RLe(st.ci[q].lo, st.med) /\ RLe(st.med, st.ci[q].hi)
                                 /\ st.ci[q].width = RSub(st.ci[q].hi, st.ci[q].lo) /\ RLe(Zero, st.ci[q].width)
+\* THE LEVEL LAW (every level of the cfg, whatever its size): the interval of level 0 is the median, the interval of level
+\* 100 is the range of the stored values, a larger level never gives a narrower interval - both bounds move strictly
+\* outwards as soon as the chain holds two values (the entries of a coordinate are distinct) - and the bounds are the
+\* percentiles at the positions (1000 -+ m)(n - 1) / 2000 for the level of m tenths of a percent.  Bounds are compared as
+\* integers over the common denominator CID * den.
+Scaled(q, d) == q[1] * ((CID * d) \div q[2])
+LevelLawAt(st) ==
+    LET s == SortSet(Range(st.vals))
+        n == Len(s)
+        d == st.den
+    IN /\ \A q \in 1..Len(st.ci) : (CID * d) % st.ci[q].lo[2] = 0 /\ (CID * d) % st.ci[q].hi[2] = 0
+       /\ \A q \in 1..(Len(st.ci) - 1) :
+             LET A == st.ci[q]  B == st.ci[q + 1]
+             IN /\ A.pm < B.pm
+                /\ IF n >= 2 THEN Scaled(B.lo, d) < Scaled(A.lo, d) /\ Scaled(A.hi, d) < Scaled(B.hi, d)
+                              ELSE B.lo = A.lo /\ B.hi = A.hi
+       /\ \A q \in 1..Len(st.ci) :
+             LET I == st.ci[q]  K == CINum(s, I.pm)
+             IN /\ I.pct = Level(I.pm) /\ RLe(Zero, I.pct) /\ RLe(I.pct, R(100))
+                /\ Scaled(I.lo, d) = K.lo /\ Scaled(I.hi, d) = K.hi
+                /\ (I.pm = 0    => I.lo = st.med /\ I.hi = st.med /\ I.width = Zero)
+                /\ (I.pm = 1000 => I.lo = Q(s[1], d) /\ I.hi = Q(s[n], d))
+                /\ I.forms \subseteq {"int", "float", "npint64", "npint32", "npfloat64", "npfloat32"} /\ "float" \in I.forms
+                /\ ("int" \in I.forms <=> I.pct[2] = 1)
+
 \* statistics of function values are statistics of the converted samples, not converted statistics:
 \* for the squaring map  mean(f) = mean(p^2)  (and # mean(p)^2 as soon as two samples differ);
 \* for the step expansion node k carries the statistics of step k div 2
@@ -407,16 +453,19 @@ LayoutIndependent ==
         /\ (c.joint /\ obj2.cols # <<>> => AllStatsL(c.lay, obj2) = AllStatsL(RefLayout, obj2))
         /\ (PlotObj(obj) # obj => AllStatsL(c.lay, PlotObj(obj)) = AllStatsL(RefLayout, PlotObj(obj)))
 
+\* the level law as an invariant of its own (deviation Fraction must violate it; Node contains it in every deciding cfg)
+LevelLaw == obj.cols # <<>> => \A q \in 1..Len(Coords(obj)) : LevelLawAt(StatsL(c.lay, obj, Coords(obj)[q]))
+
 \* evaluated once per distinct state: LoMedHi and FunStats on the exact statistics of the current object;
 \* also emits these statistics (and those of the second joint member) for the conformance replay
 Node ==
     obj.cols # <<>> =>
     LET S == AllStats(obj)
-    IN /\ \A q \in 1..Len(S) : LoMedHiAt(S[q]) /\ FunStatsAt(obj, S[q])
+    IN /\ \A q \in 1..Len(S) : LoMedHiAt(S[q]) /\ FunStatsAt(obj, S[q]) /\ LevelLawAt(S[q])
        /\ PlotStatsOK(obj)
        /\ (Emit => PrintT("@@CASE " \o ToJson([kind |-> "node", c |-> c, obj |-> obj, obj2 |-> obj2, stats |-> S,
                                                ns |-> Len(obj.cols), shape |-> SampleShape(obj) \o <<Len(obj.cols)>>,
-                                               default_pct |-> IF DefaultPercent \in Percents THEN DefaultPercent ELSE -1,
+                                               default_pm |-> IF R(DefaultPercent) \in Percents THEN DefaultPercent * 10 ELSE -1,
                                                plot |-> [is_par |-> obj.par,
                                                          stats |-> IF PlotObj(obj) = obj THEN <<>> ELSE AllStats(PlotObj(obj))],
                                                stats2 |-> IF c.joint /\ obj2.cols # <<>> THEN AllStats(obj2) ELSE <<>>,
@@ -567,10 +616,16 @@ FLayoutIndependent ==
         /\ fc.lay \in AllLayouts
         /\ \A r \in Recvs : AllStatsL(fc.lay, fo[r]) = AllStatsL(RefLayout, fo[r])
 
+\* the level law in the frame machine (deviation cfgs): the statistics of every receiver of the heap
+FLevelLaw == \A r \in Recvs : \A q \in 1..Len(Coords(fo[r])) : LevelLawAt(StatsL(fc.lay, fo[r], Coords(fo[r])[q]))
+
 \* evaluated once per distinct state: emits the exact rows of every object and the exact statistics of the newest receiver
+\* (on which the level law is checked)
 FNode ==
     fo # <<>> =>
-    (Emit => PrintT("@@CASE " \o ToJson([kind |-> "fnode", c |-> fc, fo |-> fo, fl |-> fl, init |-> (~fthin /\ ~fswap /\ Len(fo) = NBase),
-                                         rows |-> F([i \in 1..Len(fo) |-> FRows(fo[i])]),
-                                         statsof |-> LastRecv, stats |-> AllStats(fo[LastRecv])]) \o " @@END"))
+    LET S == AllStats(fo[LastRecv])
+    IN /\ \A q \in 1..Len(S) : LevelLawAt(S[q])
+       /\ (Emit => PrintT("@@CASE " \o ToJson([kind |-> "fnode", c |-> fc, fo |-> fo, fl |-> fl, init |-> (~fthin /\ ~fswap /\ Len(fo) = NBase),
+                                               rows |-> F([i \in 1..Len(fo) |-> FRows(fo[i])]),
+                                               statsof |-> LastRecv, stats |-> S]) \o " @@END"))
 =============================================================================
